@@ -285,6 +285,7 @@ func joinScenarios(evs [][]event, skip map[int]bool) ([]byte, []int) {
 
 type c38State struct {
 	mu        sync.Mutex
+	raceStat  map[string]int
 	resCount  map[string]int
 	evCount   map[string]int
 	accepted  int
@@ -457,7 +458,7 @@ func (st *c38State) count(evs [][]event) {
 // ---------------------------------------------------------------------------
 
 func runC38(c *core.Ctx) error {
-	st := &c38State{resCount: map[string]int{}, evCount: map[string]int{}}
+	st := &c38State{resCount: map[string]int{}, evCount: map[string]int{}, raceStat: map[string]int{}}
 	if c.Replay != "" {
 		return replayC38(c)
 	}
@@ -682,6 +683,10 @@ func runC38(c *core.Ctx) error {
 	c.Set("scenarios_run", st.scenarios)
 	c.Set("scenarios_diverged_from_shape", st.diverged)
 	c.Set("impl_results_by_class", st.resCount)
+	c.Set("deadline_race_results_by_class", st.raceStat)
+	if len(st.rejected) == 0 && c.NViolations() == 0 && (st.raceStat["ok"] == 0 || st.raceStat["deadline"]+st.raceStat["cancel"] == 0 || st.raceStat["follow-ok"] == 0) {
+		return fmt.Errorf("vacuous: the deadline sweep did not produce both timely and late responses (%v)", st.raceStat)
+	}
 	c.Set("impl_events_by_kind", st.evCount)
 	c.Set("traces_rejected", st.rejected)
 	c.Set("evaluations", st.accepted)
@@ -757,15 +762,18 @@ func judgeBatchFaults(c *core.Ctx, drvPath string, br *batchResult) error {
 // random mixes
 
 type mixResp struct {
-	Error  string   `json:"error"`
-	Panic  string   `json:"panic"`
-	Events int      `json:"events"`
-	Calls  int      `json:"calls"`
-	Hung   []int    `json:"hung"`
-	RpcLog []string `json:"rpclog"`
+	Error     string         `json:"error"`
+	Panic     string         `json:"panic"`
+	Events    int            `json:"events"`
+	Calls     int            `json:"calls"`
+	Hung      []int          `json:"hung"`
+	RpcLog    []string       `json:"rpclog"`
+	Stat      map[string]int `json:"stat"`          // op race: results by class
+	BaseLatUs int            `json:"baseLatencyUs"` // op race: measured round-trip latency
 }
 
-func runMix(c *core.Ctx, drvPath string, env envCfg, seed int64, params map[string]any, tag string) (evs []event, resp mixResp, race [2]string, crash string, err error) {
+// runMix runs one seeded driver operation of the mix family (op "mix" or "race") in a fresh process.
+func runMix(c *core.Ctx, drvPath, op string, env envCfg, seed int64, params map[string]any, tag string) (evs []event, resp mixResp, race [2]string, crash string, err error) {
 	d, err := startDriver(drvPath, 5*time.Minute)
 	if err != nil {
 		return nil, resp, race, "", err
@@ -774,8 +782,8 @@ func runMix(c *core.Ctx, drvPath string, env envCfg, seed int64, params map[stri
 	if env.Net == "unix" {
 		env.Dir = sockDir(c)
 	}
-	out := filepath.Join(c.Scratch, "mix-"+tag+".ndjson")
-	err = d.p.Call(map[string]any{"op": "mix", "env": env, "seed": seed, "mix": params, "out": out, "watchdogMs": 20000}, &resp)
+	out := filepath.Join(c.Scratch, op+"-"+tag+".ndjson")
+	err = d.p.Call(map[string]any{"op": op, "env": env, "seed": seed, op: params, "out": out, "watchdogMs": 20000}, &resp)
 	if err != nil {
 		if line, ok := rpcPanic(err); ok {
 			return nil, resp, race, line + "\n" + err.Error(), nil
@@ -783,7 +791,7 @@ func runMix(c *core.Ctx, drvPath string, env envCfg, seed int64, params map[stri
 		return nil, resp, race, "", err
 	}
 	if resp.Error != "" || resp.Panic != "" {
-		return nil, resp, race, "", fmt.Errorf("driver mix: %s%s", resp.Error, resp.Panic)
+		return nil, resp, race, "", fmt.Errorf("driver %s: %s%s", op, resp.Error, resp.Panic)
 	}
 	lines, err := readLines(out)
 	if err != nil {
@@ -850,35 +858,60 @@ func projectMix(evs []event) (trace []byte, ncalls int, owners map[int]string) {
 	return toNDJSON(all), len(ids), owners
 }
 
-func runMixes(c *core.Ctx, st *c38State, drvPath string) error {
-	type mixJob struct {
-		env    envCfg
-		params map[string]any
+type mixJob struct {
+	op     string // driver op: mix | race
+	env    envCfg
+	params map[string]any
+}
+
+// keyClass is the part of a violation key that must recur for a finding to count as reproduced
+// (the panic text or the first unexplained event of a racy failure may differ between runs).
+func keyClass(key string) string {
+	if i := strings.IndexByte(key, '/'); i > 0 {
+		return key[:i]
 	}
+	return key
+}
+
+const confirmRuns = 8 // a schedule-dependent failure is re-run up to this many times
+
+func runMixes(c *core.Ctx, st *c38State, drvPath string) error {
 	calls := c.Pick(8, 40)
 	mixes := []mixJob{
-		{envCfg{Net: "tcp4", MaxWorkers: 2}, map[string]any{"calls": calls, "cut": true}},
-		{envCfg{Net: "unix", Key: cryptoKey, MaxWorkers: 3, Dir: c.Scratch}, map[string]any{"calls": calls, "closeSrv": true}},
-		{envCfg{Net: "tcp4", Key: cryptoKey, MaxWorkers: 2}, map[string]any{"calls": calls, "closeCli": true, "cut": true}},
-		{envCfg{Net: "unix", MaxWorkers: 1, Dir: c.Scratch}, map[string]any{"calls": calls}},
+		{"mix", envCfg{Net: "tcp4", MaxWorkers: 2}, map[string]any{"calls": calls, "cut": true}},
+		{"mix", envCfg{Net: "unix", Key: cryptoKey, MaxWorkers: 3}, map[string]any{"calls": calls, "closeSrv": true}},
+		{"mix", envCfg{Net: "tcp4", Key: cryptoKey, MaxWorkers: 2}, map[string]any{"calls": calls, "closeCli": true, "cut": true}},
+		{"mix", envCfg{Net: "unix", MaxWorkers: 1}, map[string]any{"calls": calls}},
 	}
 	if c.Thorough() {
 		for i := 0; i < 4; i++ {
 			m := mixes[i%4]
-			mixes = append(mixes, mixJob{m.env, m.params})
+			mixes = append(mixes, mixJob{"mix", m.env, m.params})
 		}
 	} else {
 		// quick: two of the four mixes, chosen by the seed
 		k := int(c.Seed) % 4
 		mixes = []mixJob{mixes[k], mixes[(k+1)%4]}
 	}
+	// Timeout / Cancel racing with the delivery of the call's own response, then follow-up calls
+	// that reuse the pooled call contexts: deadlines swept around the measured handler latency
+	races := []mixJob{
+		{"race", envCfg{Net: "tcp4", MaxWorkers: 4}, map[string]any{"goroutines": c.Pick(3, 4), "calls": c.Pick(60, 150), "follow": c.Pick(15, 40), "cancelPct": 20}},
+	}
+	if c.Thorough() {
+		races = append(races,
+			mixJob{"race", envCfg{Net: "unix", Key: cryptoKey, MaxWorkers: 2}, map[string]any{"goroutines": 4, "calls": 150, "follow": 40, "cancelPct": 20}},
+			mixJob{"race", envCfg{Net: "tcp4", Key: cryptoKey, MaxWorkers: 8}, map[string]any{"goroutines": 6, "calls": 100, "follow": 30, "cancelPct": 50}})
+	}
+	mixes = append(mixes, races...)
 	var jobs []func() error
 	for i, m := range mixes {
 		i, m := i, m
 		jobs = append(jobs, func() error {
 			seed := c.Seed*1000 + int64(i)
-			judge := func(tag string) (rejected string, replay any, evs []event, race [2]string, err error) {
-				evs, resp, race, crash, err := runMix(c, drvPath, m.env, seed, m.params, tag)
+			// judge runs the operation once; key != "" describes a failure, race a race detector report
+			judge := func(tag string) (key string, replay any, evs []event, race [2]string, err error) {
+				evs, resp, race, crash, err := runMix(c, drvPath, m.op, m.env, seed, m.params, tag)
 				if err != nil {
 					return "", nil, nil, race, err
 				}
@@ -886,7 +919,7 @@ func runMixes(c *core.Ctx, st *c38State, drvPath string) error {
 					return "crash/" + strings.SplitN(crash, "\n", 2)[0], crash, nil, race, nil
 				}
 				if len(resp.Hung) > 0 {
-					return "hung/mix", map[string]any{"hung": resp.Hung, "rpclog": resp.RpcLog}, evs, race, nil
+					return "hung/" + m.op, map[string]any{"hung": resp.Hung, "rpclog": resp.RpcLog}, evs, race, nil
 				}
 				trace, n, _ := projectMix(evs)
 				v, err := validateTrace(c, "TraceRpcCalls", "TraceRpcCalls.cfg", map[string]string{"WORKERS": "8", "IDS": "{1, 4}"}, trace, nil)
@@ -896,15 +929,22 @@ func runMixes(c *core.Ctx, st *c38State, drvPath string) error {
 				c.Add("states", v.States)
 				c.Add("transitions", v.Gen)
 				if v.InvError != "" {
-					return "", nil, nil, race, fmt.Errorf("model invariant failed on a projected mix trace:\n%s", v.InvError)
+					return "", nil, nil, race, fmt.Errorf("model invariant failed on a projected %s trace:\n%s", m.op, v.InvError)
 				}
 				if !v.OK {
 					lines := strings.Split(strings.TrimSpace(string(trace)), "\n")
-					return "mix/" + eventClass(lines[v.Matched]), map[string]any{"first_unexplained_event": lines[v.Matched], "matched": v.Matched}, evs, race, nil
+					return m.op + "/" + eventClass(lines[v.Matched]), map[string]any{"first_unexplained_event": lines[v.Matched], "matched": v.Matched}, evs, race, nil
 				}
 				c.Add("traces_validated_against_impl", n)
 				c.Add("trace_events_validated", v.Total)
-				c.Add("mix_calls", n)
+				c.Add(m.op+"_calls", n)
+				if m.op == "race" {
+					st.mu.Lock()
+					for k, v := range resp.Stat {
+						st.raceStat[k] += v
+					}
+					st.mu.Unlock()
+				}
 				return "", nil, evs, race, nil
 			}
 			tag := fmt.Sprintf("%d-%s", i, m.env.name())
@@ -921,31 +961,32 @@ func runMixes(c *core.Ctx, st *c38State, drvPath string) error {
 				}
 				return nil
 			}
-			// reproduce with the same seed in a fresh process
-			key2, _, _, race2, err := judge(tag + "-repro")
-			if err != nil {
-				return err
+			// Such a failure depends on the schedule: the same operation (same seed) is re-run in fresh
+			// processes up to confirmRuns times; it is reported as soon as a failure of the same class recurs.
+			first := key
+			if first == "" {
+				first = race[0]
 			}
-			if key != "" {
-				if key2 == "" {
-					st.mu.Lock()
-					st.unrepro = append(st.unrepro, fmt.Sprintf("mix %s seed %d: %s", m.env.name(), seed, key))
-					st.mu.Unlock()
+			for attempt := 1; attempt <= confirmRuns; attempt++ {
+				key2, replay2, _, race2, err := judge(fmt.Sprintf("%s-repro%d", tag, attempt))
+				if err != nil {
+					return err
+				}
+				if key != "" && key2 != "" && keyClass(key2) == keyClass(key) {
+					c.Violate(key, fmt.Sprintf("%s on %s (seed %d): the recorded history of one call is not a behaviour of RpcCalls / calls hung / pkg/rpc panicked (recurred in re-run %d with key %s): %v",
+						m.op, m.env.name(), seed, attempt, key2, replay),
+						map[string]any{"op": m.op, "env": m.env, "seed": seed, m.op: m.params, "detail": replay, "detail_rerun": replay2, "key_rerun": key2})
 					return nil
 				}
-				c.Violate(key, fmt.Sprintf("random mix on %s (seed %d): the recorded history of one call is not a behaviour of RpcCalls / calls hung / pkg/rpc panicked: %v", m.env.name(), seed, replay),
-					map[string]any{"op": "mix", "env": m.env, "seed": seed, "mix": m.params, "detail": replay})
-			}
-			if race[0] != "" {
-				if race2[0] == "" {
-					st.mu.Lock()
-					st.unrepro = append(st.unrepro, "data race report in a mix, not reproduced: "+race[1])
-					st.mu.Unlock()
+				if race[0] != "" && race2[0] != "" {
+					c.Violate(race[0], "the Go race detector (not the specification) reports a data race during "+m.op+" (recurred in a re-run):\n"+race[1],
+						map[string]any{"op": m.op, "env": m.env, "seed": seed, m.op: m.params, "report": race[1], "report_rerun": race2[1]})
 					return nil
 				}
-				c.Violate(race[0], "the Go race detector (not the specification) reports a data race during a random mix:\n"+race[1],
-					map[string]any{"op": "mix", "env": m.env, "seed": seed, "mix": m.params, "report": race[1]})
 			}
+			st.mu.Lock()
+			st.unrepro = append(st.unrepro, fmt.Sprintf("%s %s seed %d: %s (did not recur in %d re-runs)", m.op, m.env.name(), seed, first, confirmRuns))
+			st.mu.Unlock()
 			return nil
 		})
 	}
@@ -1012,6 +1053,7 @@ func replayC38(c *core.Ctx) error {
 			Scenarios []scenario     `json:"scenarios"`
 			Seed      int64          `json:"seed"`
 			Mix       map[string]any `json:"mix"`
+			Race      map[string]any `json:"race"`
 		} `json:"replay"`
 	}
 	b, err := readLines(c.Replay)
@@ -1029,9 +1071,13 @@ func replayC38(c *core.Ctx) error {
 	if env.Net == "unix" {
 		env.Dir = c.Scratch
 	}
-	st := &c38State{resCount: map[string]int{}, evCount: map[string]int{}}
-	if rf.Replay.Op == "mix" {
-		evs, resp, race, crash, err := runMix(c, drvPath, env, rf.Replay.Seed, rf.Replay.Mix, "replay")
+	st := &c38State{resCount: map[string]int{}, evCount: map[string]int{}, raceStat: map[string]int{}}
+	if rf.Replay.Op == "mix" || rf.Replay.Op == "race" {
+		params := rf.Replay.Mix
+		if rf.Replay.Op == "race" {
+			params = rf.Replay.Race
+		}
+		evs, resp, race, crash, err := runMix(c, drvPath, rf.Replay.Op, env, rf.Replay.Seed, params, "replay")
 		if err != nil {
 			return err
 		}
